@@ -43,6 +43,8 @@ def gen_history(rng, n, seq_window):
             else:
                 cmd = rng.choice(RESP_CMDS)
             seq = rng.choice(seq_window) if rng.random() < 0.9 else rng.randint(1, 0x7FFFFFFF)
+            if rng.random() < 0.08:
+                seq |= 0x80000000              # a number no request can carry: the reserved top bit set on a live number
             ev.append(('R', cmd, seq))
             if rng.random() < 0.15:
                 ev.append(('R', cmd, seq))     # duplicate
@@ -73,6 +75,8 @@ PRESET = [0, 3, 0, 1, 2147483647, 0, 2, 5]
 
 def response_pdu(cmd, seq):
     from aiosmpplib.protocol import SubmitSmResp, BindTransceiverResp
+    if cmd == 0x80000004 and seq > 0x7FFFFFFF:
+        return sess.header_pdu(cmd, 0, seq, b'm%d\x00' % (seq % 1000))
     if cmd == 0x80000004:
         return SubmitSmResp(sequence_num=seq, message_id='m%d' % (seq % 1000)).pdu()
     if cmd in (0x80000009, 0x80000001, 0x80000002):
@@ -218,6 +222,90 @@ def oracle(obs, mn, mx, history):
     return None
 
 
+def run_reconnect(rng, n_msgs, ttl, drop_after, answer_p, keepalive):
+    """whole sessions with connection losses while requests are outstanding: the numbers on the wire (all connections)"""
+    import struct
+    from harness import vsess, smppref
+    from aiosmpplib.correlator import SimpleCorrelator
+    from aiosmpplib.protocol import SubmitSm
+    from aiosmpplib.state import PhoneNumber
+    loop = vsess.VLoop()
+    asyncio.set_event_loop(loop)
+    smsc = vsess.FakeSMSC(loop)
+    undo = vsess.install(loop, smsc)
+    obs = {'requests': [], 'answers': {}, 'outcomes': []}
+    try:
+        esme, hook = vsess.quiet_esme(enquire_link_interval=keepalive, socket_timeout=4.0, correlator=SimpleCorrelator('c13', max_ttl_response=ttl))
+        count = [0]
+
+        def on_pdu(conn, pdu):
+            for p in vsess.split_pdus(pdu)[0]:
+                cmd, seq = struct.unpack('>I', p[4:8])[0], struct.unpack('>I', p[12:16])[0]
+                if cmd < 0x80000000:
+                    obs['requests'].append((loop.time(), conn.index, cmd, seq))
+                if cmd in (1, 2, 9):
+                    conn.send(vsess.bind_resp_for(p))
+                elif cmd == 0x15:
+                    conn.send(smppref.header(0x80000015, 0, seq))
+                    obs['answers'][(conn.index, seq)] = loop.time()
+                elif cmd == 4:
+                    count[0] += 1
+                    if rng.random() < answer_p:
+                        conn.send(smppref.header(0x80000004, 0, seq, b'id%d\x00' % seq), delay=0.01)
+                        obs['answers'][(conn.index, seq)] = loop.time()
+                    if count[0] in drop_after:
+                        conn.reset(delay=0.02) if rng.random() < 0.5 else conn.eof(delay=0.02)
+        smsc.on_pdu = on_pdu
+
+        async def main():
+            t = asyncio.create_task(esme.start())
+            await asyncio.sleep(1.0)
+            for j in range(n_msgs):
+                await esme.broker.enqueue(SubmitSm(short_message='m%d' % j, source=PhoneNumber('1'), destination=PhoneNumber('2'), log_id=f'L{j}'))
+                await asyncio.sleep(rng.choice([0.0, 0.0, 0.3, 1.0, float(ttl) / 2]))
+            await asyncio.sleep(float(ttl) * 3 + 3 * keepalive + 10)
+            obs['start_done'] = t.done()
+            for e in hook.log:
+                if e[0] == 'received' and e[1] is not None and getattr(e[1], 'log_id', ''):
+                    obs['outcomes'].append((e[1].log_id, 'resp', e[1].sequence_num))
+                elif e[0] == 'send_error' and getattr(e[1], 'log_id', ''):
+                    obs['outcomes'].append((e[1].log_id, type(e[2]).__name__, e[1].sequence_num))
+            obs['sent'] = [(e[1].log_id, e[1].sequence_num) for e in hook.log if e[0] == 'sending' and isinstance(e[1], SubmitSm)]
+            if not t.done():
+                t.cancel()
+                try:
+                    await t
+                except BaseException:  # noqa: BLE001
+                    pass
+        loop.run_until_complete(main())
+    finally:
+        undo()
+        vsess.finish(loop)
+    return obs
+
+
+def reconnect_oracle(obs, ttl):
+    """no request is written with a number that an earlier request, still unanswered and younger than the time-to-live, carries;
+    every number lies in 1..0x7FFFFFFF; an outcome names the message that was sent under that number"""
+    reqs = obs['requests']
+    for i, (t, ci, cmd, seq) in enumerate(reqs):
+        if not 1 <= seq <= 0x7FFFFFFF:
+            return f'request {cmd:#x} written with sequence number {seq}'
+        for (t0, c0, cmd0, seq0) in reqs[:i]:
+            if seq0 == seq and t - t0 <= float(ttl):
+                ta = obs['answers'].get((c0, seq0))
+                if ta is None or ta > t:
+                    return (f'request {cmd:#x} on connection {ci} was written with sequence number {seq} at t={t:.2f} while request {cmd0:#x} written '
+                            f'on connection {c0} at t={t0:.2f} under the same number was still outstanding (ttl {float(ttl)})')
+    by_seq = {}
+    for lid, seq in obs['sent']:
+        by_seq.setdefault(seq, []).append(lid)
+    for lid, kind, seq in obs['outcomes']:
+        if kind == 'resp' and lid not in by_seq.get(seq, []):
+            return f'a response with sequence number {seq} was attributed to {lid}, which was sent under {[s for l, s in obs["sent"] if l == lid]}'
+    return None
+
+
 def run(ctx):
     ctx.rule = ('generator: (min,max,start) triples incl. starts just below max, 40 successive numbers each; matching: seeded histories of '
                 'assign/put/drop/response/expire events driven through the real ESME (_send_data suspended in the sending hook between number '
@@ -306,6 +394,22 @@ def run(ctx):
         msg = C14.oracle(ttl, hooklog, executed, info)
         if msg and ('answered' in msg or 'twice' in msg):
             ctx.violation(f'a response matched a request that was no longer outstanding: {msg}', {'function': 'concurrent', 'script': repr(script)[:1500], 'ttl': str(ttl)})
+    # ---- whole sessions with connection losses while requests are outstanding
+    for j in range(300 if ctx.thorough else 14):
+        n_msgs = rng.randint(2, 7)
+        ttl = rng.choice([3.0, 6.0, 15.0])
+        drop_after = set(rng.sample(range(1, n_msgs + 1), rng.choice([1, 1, 2])))
+        args = dict(n_msgs=n_msgs, ttl=ttl, drop_after=sorted(drop_after), answer_p=rng.choice([0.0, 0.5, 0.8]), keepalive=rng.choice([2.0, 50.0]))
+        import random as _random
+        seed = rng.randrange(2 ** 30)
+        obs = run_reconnect(_random.Random(seed), **args)
+        ctx.traces += 1
+        ctx.count('reconnect_sessions')
+        ctx.count('reconnect_requests', len(obs['requests']))
+        ctx.case(('reconnect', seed, tuple(sorted(args.items(), key=str))), nontrivial=len({c for _t, c, _c, _s in obs['requests']}) > 1)
+        msg = reconnect_oracle(obs, ttl)
+        if msg:
+            ctx.violation(msg, dict(args, function='reconnect', seed=seed))
     return ctx.finish()
 
 
@@ -318,6 +422,11 @@ def replay(ctx, path):
         hist = [tuple(e) for e in r['history']]
         _res, obs = asyncio.run(run_impl_wrapped(hist, mn, mx, cur))
         msg = oracle(obs, mn, mx, hist)
+    elif r.get('function') == 'reconnect':
+        import random as _random
+        obs = run_reconnect(_random.Random(r['seed']), n_msgs=r['n_msgs'], ttl=r['ttl'], drop_after=r['drop_after'], answer_p=r['answer_p'], keepalive=r['keepalive'])
+        print('replay: requests on the wire (time, connection, command, number):', [(round(t, 2), c, hex(cmd), sq) for t, c, cmd, sq in obs['requests']][:40])
+        msg = reconnect_oracle(obs, r['ttl'])
     else:
         msg = None
     print('replay:', msg or 'property holds on this input')
